@@ -25,6 +25,7 @@ func init() {
 		ruleNodeLookup(r, "C01.NODE", k)
 		ruleVecAtomicAndRevive(r, k) // remove + add history of the statement (C06 rules, flat instance)
 		ruleCtorDistance(r, "C01.CTOR", k)
+		ruleQueryPreprocessed(r, "C01.QUERY", k)
 		ruleDistance(r, "C01.DIST") // "each reported score is the metric distance": distance.go is an anchor of this property
 		ruleLimitAutocut(r, "C01")
 		ruleDocumentFilter(r, "C01.FILTER")
@@ -63,6 +64,7 @@ func init() {
 			ruleNodeLookup(r, "C02.NODE", k)
 			ruleVecAtomicAndRevive(r, k)
 			ruleCtorDistance(r, "C02.CTOR", k)
+			ruleQueryPreprocessed(r, "C02.QUERY", k)
 		}
 		ruleDistance(r, "C02.DIST")
 		ruleAggregations(r, "C02") // multi-query combination rule: aggregation.go is an anchor of this property
